@@ -285,7 +285,7 @@ def gen_ws_handshake(r):
             name = b"X-Pad: "
             lines.insert(r.randrange(len(lines) + 1), name + b"p" * max(0, ln - len(name)))
         if r.random() < 0.3:
-            lines = [l.replace(b": ", b":  \t ", 1) if r.random() < 0.5 else l for l in lines]
+            lines = [l.replace(b": ", b":  \t ", 1) if (r.random() < 0.5 and len(l) < 140) else l for l in lines]
         if r.random() < 0.2:
             lines = [b"Connection: keep-alive, Upgrade" if l.lower().startswith(b"connection:") else l for l in lines]
     elif x < 0.82:
@@ -354,6 +354,11 @@ def gen_ws_stream(r, hs=None, small=False):
             m, code = gen_ws_msg(r)
             while len(m) > WS_RX or (small and len(m) > 12):
                 m, code = gen_ws_msg(r)
+            if not small and r.random() < 0.06:
+                # a message that fills the receive buffer exactly / lacks one byte
+                want = WS_RX - r.choice([0, 0, 1])
+                code = r.choice([2, 3])
+                m = gen_wire.py_serialize("ws", 0, code, 0, b"", [(11, b"f")], gen_wire.rbytes(r, want - 5))
             lf = None
             if r.random() < 0.15:
                 lf = 64 if r.random() < 0.5 else 16
